@@ -404,7 +404,7 @@ def gen_ridges(rng, ctx, f):
 
 # knobs for model types only some checks want (set by the check around its generation, default off so that the
 # random streams of the other checks do not change)
-EXTRA = {'water': 0.0, 'no_ranges': False}
+EXTRA = {'water': 0.0, 'no_ranges': False, 'random_composition': 0.0}
 
 
 def gen_water_model(rng, ftype, f, ncomp):
@@ -426,6 +426,10 @@ def gen_water_model(rng, ftype, f, ncomp):
 def gen_composition_model(rng, ctx, ftype, f, ncomp, allow=None, p_ops=0.5):
     if EXTRA['water'] > 0 and ftype in ('oceanic plate', 'subducting plate') and allow is None and rng.random() < EXTRA['water']:
         return gen_water_model(rng, ftype, f, ncomp)
+    if EXTRA['random_composition'] > 0 and ftype == 'continental plate' and allow is None and rng.random() < EXTRA['random_composition']:
+        comps = rng.sample(range(ncomp), rng.randint(1, min(3, ncomp)))
+        lo = [num(rng, -2, 2) for _ in comps]
+        return {'model': 'random', 'compositions': comps, 'min value': lo, 'max value': [R(l + num(rng, 0.1, 3)) for l in lo]}
     choices = {'continental plate': ['uniform'], 'mantle layer': ['uniform'], 'oceanic plate': ['uniform'],
                'plume': ['uniform'], 'subducting plate': ['uniform', 'smooth'], 'fault': ['uniform', 'smooth']}[ftype]
     if allow is not None:
